@@ -1040,13 +1040,15 @@ impl Machine {
 
     /// Consumes a reply for the pending INPUT. Ok(false) = unsuitable reply, ask again.
     fn do_input(&mut self, l: &LVal, reply: &str) -> R<bool> {
-        let ix = match &l.index {
-            Some(ix) => Some(self.eval_index(ix)?),
-            None => None,
-        };
+        // Whether the reply suits the variable depends on the variable's name only; an
+        // unsuitable reply repeats the request with nothing else evaluated (no subscript).
         let (first, extra) = split_reply(reply);
         match coerce(&l.name, &first) {
             Ok(v) => {
+                let ix = match &l.index {
+                    Some(ix) => Some(self.eval_index(ix)?),
+                    None => None,
+                };
                 self.assign(l, ix, v)?;
                 if extra {
                     self.events.push(MEvent::ExtraIgnored);
